@@ -354,10 +354,12 @@ pub fn layout(d: &[u8], point: i64, sel: u16, knob: u32, allow_trailing: bool) -
     }
     let trailing_zero = *d.last().unwrap() == 0;
     let mut c = pick_w(sel, &[30, 20, 25, 15, 10]);
-    if trailing_zero {
-        debug_assert!(allow_trailing);
+    if trailing_zero && !allow_trailing {
+        debug_assert!(false, "trailing zero in a digit string that does not allow it");
         c = 0;
     }
+    // with `allow_trailing` the zeros may end up at the end of the fraction as well: parse_float tolerates
+    // them (tests/parse_tests.rs, issue #20) and the properties quantify over all digit strings
     match c {
         0 => (ascii(d), vec![], clamp(point - len), LAYOUTS[0]),
         1 => (vec![], ascii(d), clamp(point), LAYOUTS[1]),
@@ -767,6 +769,26 @@ pub fn g_d(fmt: Fmt, r: &Recipe) -> Case {
             layout: "integer-only",
             expect: None,
         }
+    } else if r.k[2] % 3 == 0 && !d.is_empty() {
+        // the same tie followed by zeros (value unchanged), up to and across the digit limit of the slow path:
+        // the "were non-zero digits cut off" scan then has only zeros to look at
+        let limit: usize = match fmt {
+            Fmt::F32 => 114,
+            Fmt::F64 => 769,
+        };
+        let z = match (r.k[2] / 3) % 4 {
+            0 => 1 + (r.k[1] as usize) % 60,
+            1 => (limit + (r.k[1] as usize) % 7).saturating_sub(d.len() + 3),
+            2 => limit + (r.k[1] as usize) % 300,
+            _ => (r.k[1] as usize) % (2 * limit),
+        };
+        let mut dz = d.clone();
+        while (dz.len() as i64) < point && dz.len() < 400 {
+            dz.push(0);
+        }
+        dz.extend(std::iter::repeat(0).take(z));
+        let (int, frac, exp, lay) = layout(&dz, point, r.sel[5], r.k[3], true);
+        Case { int, frac, exp, family: "G-D short-tie", variant: "tie+zeros across the digit limit", layout: lay, expect: None }
     } else {
         let (int, frac, exp, lay) = layout(&d, point, r.sel[5], r.k[3], false);
         Case { int, frac, exp, family: "G-D short-tie", variant: if q < 0 { "q<0" } else { "q>=0" }, layout: lay, expect: None }
